@@ -105,7 +105,8 @@ def parse_strace(log, start_cwd):
 
 
 def run_one(job):
-    idx, w2c2, wasm, refwasm, cwd, outpath, opts, variant = job
+    idx, w2c2, wasm, refwasm, cwd, outpath, opts, variant = job[:8]
+    mode = job[8] if len(job) > 8 else 'ok'      # 'fails': the run is expected to end with an error (module the code generator rejects, or a directory that cannot be entered)
     root = tempfile.mkdtemp(prefix='c20.', dir='/dev/shm')
     root = os.path.realpath(root)
     try:
@@ -114,6 +115,20 @@ def run_one(job):
             f.write(wasm)
         with open(os.path.join(root, 'in', 'ref.wasm'), 'wb') as f:
             f.write(refwasm)
+        # "ghost" files: what a RELATIVE output path names when it is resolved again after the translator has changed into the output directory
+        # (<outdir>/<outpath> and the header next to it); they belong to somebody else and must survive
+        if not outpath.startswith('ABS') and len(outpath) < 200:
+            od = os.path.dirname(os.path.normpath(os.path.join(root, cwd, outpath.rstrip('/'))))
+            ghost = os.path.normpath(os.path.join(od, outpath.rstrip('/')))
+            if os.path.isdir(od) and ghost.startswith(root + '/') and os.path.realpath(os.path.dirname(ghost)) != os.path.realpath(od):
+                try:
+                    os.makedirs(os.path.dirname(ghost), exist_ok=True)
+                    for g in (ghost, os.path.splitext(ghost)[0] + '.h'):
+                        if not os.path.lexists(g):
+                            with open(g, 'w') as f:
+                                f.write('ghost of a stale relative path\n')
+                except OSError:
+                    pass
         before = snapshot(root)
         args = [a if a != 'REF' else os.path.join(root, 'in', 'ref.wasm') for a in opts]
         op = outpath.replace('ABS', root)
@@ -127,7 +142,7 @@ def run_one(job):
             slog = ''
         outdir, allowed, may_delete = model(root, cwd, outpath, opts)
         problems = []
-        if r.returncode != 0:
+        if r.returncode != 0 and mode != 'fails':
             problems.append(('exit', 'exit status %d: %s' % (r.returncode, r.stderr.decode(errors='replace')[-200:])))
 
         def ok_write(p):
@@ -137,6 +152,9 @@ def run_one(job):
 
         def ok_delete(p):
             rd = os.path.realpath(os.path.dirname(p))
+            # a run that fails may remove what it was allowed to create itself (a truncated output file is no use to anybody)
+            if mode == 'fails' and rd == outdir and os.path.basename(p) in allowed:
+                return True
             return may_delete and rd == outdir and IMPL.match(os.path.basename(p)) is not None
         neffects = 0
         # monitor 1: snapshots
@@ -185,9 +203,13 @@ def main(tier):
     m = Module()
     m.add_func('ii', 'i', (), local_get(0), export='f')
     refwasm = m.encode()
+    fm = Module()
+    fm.add_func('', 'i', (), i32_const(1), export='a')
+    fm.add_func('', '', (), b'\xd0\x70' + DROP, export='b')
+    failwasm = fm.encode()
     if tier == 'replay':
         r = json.load(open(sys.argv[2]))
-        idx, neff, problems, nlog = run_one((0, w2c2, wasm, refwasm, r['cwd'], r['outpath'], r['options'], r['variant']))
+        idx, neff, problems, nlog = run_one((0, w2c2, failwasm if r.get('input') == 'rejected-by-code-generator' else wasm, refwasm, r['cwd'], r['outpath'], r['options'], r['variant'], r.get('mode', 'ok')))
         print(problems)
         print('REPLAY: %s' % ('violation reproduced' if problems else 'case passes on the current tree'))
         return 1 if problems else 0
@@ -210,6 +232,16 @@ def main(tier):
             for variant in ((0, 1, 2) if tier == 'thorough' else (k % 3,)):
                 jobs.append((len(jobs), w2c2, wasm, refwasm, cwd, outpath, o, variant))
             k += 1
+    # runs that END WITH AN ERROR must keep to the same rules: (a) a valid module the code generator rejects half-way (ref.null), every shape;
+    # (b) an output directory that does not exist / whose component is a regular file / that may not be searched: nothing may be written or
+    # deleted anywhere (in particular not in the invoking directory)
+    some = [o for k, o in enumerate(optsets) if k % 7 == 0] if tier == 'quick' else optsets[::3]
+    for (cwd, outpath) in OUTSHAPES:
+        for k2, o in enumerate(some):
+            jobs.append((len(jobs), w2c2, failwasm, refwasm, cwd, outpath, o, k2 % 3, 'fails'))
+    for (cwd, outpath) in (('cwd', 'missing/out.c'), ('cwd', '../in/m.wasm/out.c'), ('out', 'sub/missing/deeper/out.c'), ('cwd', 'ABS/nowhere/out.c'), ('cwd', '../out/d0000000003.c/keep/out.c')):
+        for k2, o in enumerate(optsets if tier == 'thorough' else optsets[::2]):
+            jobs.append((len(jobs), w2c2, wasm, refwasm, cwd, outpath, o, k2 % 3, 'fails'))
     with ProcessPoolExecutor(NCPU) as ex:
         results = list(ex.map(run_one, jobs, chunksize=4))
     nontrivial = 0
@@ -226,7 +258,7 @@ def main(tier):
             if key in seen:
                 continue
             seen.add(key)
-            chk.violation(key, {'kind': 'config', 'cwd': job[4], 'outpath': job[5], 'options': job[6], 'variant': job[7], 'problem': [kind, what], 'replay_module': 'c20.py'},
+            chk.violation(key, {'kind': 'config', 'cwd': job[4], 'outpath': job[5], 'options': job[6], 'variant': job[7], 'mode': job[8] if len(job) > 8 else 'ok', 'input': 'rejected-by-code-generator' if job[2] is failwasm else 'hand-all', 'problem': [kind, what], 'replay_module': 'c20.py'},
                           'cwd=%s output=%s options=%s: %s %s' % (job[4], job[5].replace(LONGDIR, 'L*250'), ' '.join(job[6]), kind, what.replace(LONGDIR, 'L*250')))
     chk.cov['distinct_nontrivial'] = nontrivial
     chk.cov['output_shapes'] = [s[1].replace(LONGDIR, 'L*250') for s in OUTSHAPES]
